@@ -8,6 +8,7 @@ package main
 // attributes in value position — decided by the delivery oracles only.
 
 import (
+	"bytes"
 	"context"
 	"fmt"
 	"io"
@@ -286,6 +287,88 @@ func (g *rng) c02NewLogger(format string, idx int, pkg bool) *c02Logger {
 	return c
 }
 
+// c02WriterOrder: the destinations of the three classes (normal, error device, per-severity) are configured in every
+// order, as options of New and by the setters: a record still reaches each destination selected for its severity in
+// exactly one Write, and no other one.
+func c02WriterOrder(r *run) {
+	type dest struct {
+		name string
+		rec  *recorder
+	}
+	for round := 0; round < 12; round++ {
+		slog.VerifResetGlobals()
+		n, e, lw, n2 := &dest{"normal", &recorder{}}, &dest{"error", &recorder{}}, &dest{"level(Debug)", &recorder{}}, &dest{"normal-2", &recorder{}}
+		var l slog.Logger
+		var how string
+		wantNormal := n
+		switch round % 6 {
+		case 0:
+			l, how = slog.New("wo", slog.WithErrorWriter(e.rec), slog.WithWriter(n.rec)), "New(WithErrorWriter(e), WithWriter(n))"
+			l.AddLevelWriter(slog.DebugLevel, lw.rec)
+		case 1:
+			l, how = slog.New("wo", slog.WithWriter(n.rec), slog.WithErrorWriter(e.rec)), "New(WithWriter(n), WithErrorWriter(e))"
+			l.AddLevelWriter(slog.DebugLevel, lw.rec)
+		case 2:
+			l, how = slog.New("wo"), "SetErrorWriter(e); AddLevelWriter(Debug, lw); SetWriter(n)"
+			l.SetErrorWriter(e.rec)
+			l.AddLevelWriter(slog.DebugLevel, lw.rec)
+			l.SetWriter(n.rec)
+		case 3:
+			l, how = slog.New("wo"), "SetWriter(n); SetErrorWriter(e); AddLevelWriter(Debug, lw); SetWriter(n2)"
+			l.SetWriter(n.rec).SetErrorWriter(e.rec)
+			l.AddLevelWriter(slog.DebugLevel, lw.rec)
+			l.SetWriter(n2.rec)
+			wantNormal = n2
+		case 4:
+			l, how = slog.New("wo", slog.WithErrorWriter(e.rec)), "New(WithErrorWriter(e)); AddLevelWriter(Debug, lw); SetWriter(n2); SetWriter(n)"
+			l.AddLevelWriter(slog.DebugLevel, lw.rec)
+			l.SetWriter(n2.rec)
+			l.SetWriter(n.rec)
+		default:
+			l, how = slog.New("wo", slog.WithErrorWriter(e.rec)), "New(WithErrorWriter(e)); AddLevelWriter(Debug, lw); AddWriter(n) after SetWriter(n2)"
+			l.AddLevelWriter(slog.DebugLevel, lw.rec)
+			l.SetWriter(n2.rec)
+			l.AddWriter(n.rec)
+		}
+		l.SetLevel(slog.TraceLevel)
+		if round >= 6 {
+			l.SetColorMode(false)
+		}
+		for _, sev := range []slog.Level{slog.InfoLevel, slog.ErrorLevel, slog.WarnLevel, slog.DebugLevel, slog.TraceLevel} {
+			for _, d := range []*dest{n, e, lw, n2} {
+				d.rec.take()
+			}
+			l.Logit(context.Background(), sev, "one record", "round", round)
+			want := map[*dest]bool{}
+			switch {
+			case sev == slog.DebugLevel:
+				want[lw] = true
+			case sev == slog.ErrorLevel || sev == slog.WarnLevel:
+				want[e] = true
+			default:
+				want[wantNormal] = true
+				if round%6 == 5 {
+					want[n], want[n2] = true, true
+				}
+			}
+			r.seen(fmt.Sprintf("writer-order|%d|%d", round%6, int(sev)))
+			for _, d := range []*dest{n, e, lw, n2} {
+				w := d.rec.take()
+				exp := 0
+				if want[d] {
+					exp = 1
+				}
+				if len(w) != exp || (exp == 1 && !bytes.HasSuffix(w[0], []byte("\n"))) {
+					r.violate(violation{What: "a destination selected for the severity did not get the record in exactly one Write (or another one got it)",
+						Input:    map[string]any{"configured_by": how, "severity": int(sev), "destination": d.name},
+						Expected: fmt.Sprintf("%d write(s)", exp), Actual: fmt.Sprintf("%d write(s) %q", len(w), w)})
+				}
+			}
+		}
+	}
+	slog.VerifResetGlobals()
+}
+
 func runC02(r *run) {
 	r.rule = "sequences of 10 verb calls (22 entry points of 3 loggers / the package functions, all logger levels incl. Off and Always, custom severities) with free-form argument lists (pairs with values of every kind, Attr, []Attr, Attrs, Group(...) with free-form members, nil, dangling keys, non-strings and empty strings in key position, Println with a non-string first argument), any message bytes incl. white-space-only; distinct = distinct (format, verb, admitted, argument shapes, message class); non-trivial = calls with at least one argument or a blank message"
 	rounds := 300
@@ -296,6 +379,7 @@ func runC02(r *run) {
 	// destinations handed from logger to logger as lists (GetWriter / GetWriterBy → SetWriter …), then Add / Remove on
 	// either side: every logger still delivers each record exactly once to each of its own destinations
 	c10WriterIsolation(r, &rng{s: r.seed*7907 + 2})
+	c02WriterOrder(r)
 	// the same delivery oracles in go-test mode (the error dump after a record is active only there):
 	// the twin binary harness.test, oracle-only
 	if exe := os.Getenv("VERIF_HARNESS"); exe != "" {
